@@ -192,6 +192,8 @@ Proof.
   pose proof (be_val_range (slice (Some 8) (Some (8 + kl)) data) (wfb_slice _ _ _ Hw)) as Hr.
   pose proof (P_mono _ _ (length_slice_window data 8 kl ltac:(lia) Hkl)). lia.
 Qed.
+Lemma FFCDHParameters_unpack_safe data : Safe (FFCDHParameters_unpack data).
+Proof. unfold FFCDHParameters_unpack. destruct (negb (beqb _ c_FFCDH_PARAMS_MAGIC)); [reflexivity|]. exact I. Qed.
 Lemma ECDHKey_unpack_safe data :
   SafeP (fun k => exists cv, curve_and_hash k = Ok (cv, curve_hash cv)) (ECDHKey_unpack data).
 Proof.
@@ -242,6 +244,10 @@ Proof.
   destruct (Gkdi.str_eqb sa STR_DH).
   - apply SafeP_Safe with (Q := fun _ => True).
     eapply SafeP_bind; [apply (FFCDHKey_unpack_safe pub)|]. cbv beta. intros k Hk. destruct (Hk Hw) as [Hkl Hfo].
+    (* repair of D16: the group's parameters are decoded (ValueError on a bad magic) and two deliberate ValueErrors *)
+    eapply SafeP_bind with (Q := fun _ => True); [apply Safe_SafeP, FFCDHParameters_unpack_safe|]. intros dp _.
+    destruct (dh_params_mismatch k dp); [reflexivity|].
+    destruct (k_dh_pub_bad _ _); [reflexivity|].
     eapply SafeP_bind; [apply (py_pow3_safe (ffk_public_key k) (be_val priv) (ffk_field_order k)); lia|]. cbv beta.
     intros v Hv. eapply SafeP_bind with (Q := fun _ => True); [apply Safe_SafeP, to_bytes_be_z_safe; lia|].
     intros; exact I.
@@ -479,9 +485,11 @@ Example ex_cache_ok_needed :
   cache_ok (ex_cache_at 31 31) /\ fst (unprotect_offline sym (ex_cache_at 31 31) ex_blob) = Raise InvalidUnwrap.
 Proof. vm_compute. repeat split; discriminate. Qed.
 (* `wfb` (elements in 0..255: a Python bytes object) cannot be dropped either -- the model's `bytes` is `list Z`, and
-   with a negative "octet" the DH field order is negative, the modular power negative, and to_bytes overflows *)
+   with an "octet" of 1000 as one-byte field order (the group's parameters say the same) the shared secret 700 does not
+   fit the one byte the key length announces, and to_bytes overflows *)
 Example ex_wfb_needed :
-  compute_kek sym SHA512 STR_DH [] [1] (c_FFCDH_KEY_MAGIC ++ [1; 0; 0; 0] ++ [-5] ++ [2] ++ [3]) = Raise OverflowError.
+  compute_kek sym SHA512 STR_DH ([0; 0; 0; 0] ++ c_FFCDH_PARAMS_MAGIC ++ [1; 0; 0; 0] ++ [1000] ++ [2]) [1]
+    (c_FFCDH_KEY_MAGIC ++ [1; 0; 0; 0] ++ [1000] ++ [2] ++ [700]) = Raise OverflowError.
 Proof. vm_compute. reflexivity. Qed.
 
 (* the key length a DH key blob announces is bounded by the size of the blob, so the fixed-width
